@@ -1,5 +1,7 @@
 import Mathlib.Tactic
 import ExponaxModel.Model.Layout
+import ExponaxModel.Proofs.ReadOffSpectrum
+import ExponaxModel.Proofs.ReadOffParseval
 /-
 C17 — radial spectrum: every mode lands in its documented bin.
 Integer part: the half-open bins `[b−½, b+½)` of `get_spectrum`, written on `4|k|²`.
@@ -117,5 +119,38 @@ theorem C17_axis_mode_in_bin (b : ℕ) : inBin [0, (b : ℤ)] b = true ∧ inBin
 example : inBin [3, 4] 5 = true := by decide
 example : inBin [1, 1] 1 = true ∧ inBin [1, 1] 2 = false := by decide
 example : binOf [2, -2, 1] 8 = some 3 := by decide
+
+/-! ### through the model `Spectrum.spectrum` itself, every dimension (`Proofs/ReadOffSpectrum.lean`, `ReadOffParseval.lean`) -/
+
+/-- AMPLITUDE READ-OFF: `a cos(κ·x + φ)` (κ ≠ 0 strictly below Nyquist, either sign of the last component, also the
+    self-paired case κ_last = 0) shows `|a|` in the bin that contains `|κ|` and 0 in every other bin -/
+theorem C17_amplitude_readoff (D N : ℕ) (hD : 1 ≤ D) (hN : 0 < N) (κ : List ℤ) (hκ : ExactLinear.BelowNyquist D N κ)
+    (hne : ∃ d < D, κ.getD d 0 ≠ 0) (a φ : ℝ) (b : ℕ) (hb : b < N / 2 + 1) :
+    (Spectrum.spectrum D N false false (ExactLinear.modeField D N κ a φ)).getD b 0 =
+      if Layout.inBin κ b = true then ((|a| : ℝ) : ℂ) else 0 :=
+  ReadOff.spectrum_amplitude_modeField D N hD hN κ hκ hne a φ b hb
+
+/-- POWER: the same mode contributes `a²/4 = ½·mean(u²)` to that bin only -/
+theorem C17_power_readoff (D N : ℕ) (hD : 1 ≤ D) (hN : 0 < N) (κ : List ℤ) (hκ : ExactLinear.BelowNyquist D N κ)
+    (hne : ∃ d < D, κ.getD d 0 ≠ 0) (a φ : ℝ) (b : ℕ) (hb : b < N / 2 + 1) :
+    (Spectrum.spectrum D N true false (ExactLinear.modeField D N κ a φ)).getD b 0 =
+      if Layout.inBin κ b = true then ((a ^ 2 / 4 : ℝ) : ℂ) else 0 :=
+  ReadOff.spectrum_power_modeField D N hD hN κ hκ hne a φ b hb
+
+/-- 1-D: the FULL Parseval identity for every real state, sum and average binning alike -/
+theorem C17_parseval_1d (N : ℕ) (hN : 0 < N) (average : Bool) (u : Array ℂ) (hu : ∀ j < N, (u.getD j 0).im = 0) :
+    ∑ b ∈ Finset.range (N / 2 + 1), (Spectrum.spectrum 1 N true average u).getD b 0 =
+      ((1 / 2 * (1 / (N : ℝ) * ∑ j ∈ Finset.range N, ‖u.getD j 0‖ ^ 2) : ℝ) : ℂ) :=
+  ReadOff.spectrum_parseval_1d N hN average u hu
+
+/-- n-D: summed power + the power of the stored modes OUTSIDE the Nyquist sphere (which the binning drops, as the
+    property says) = half the mean square of the state — every real state -/
+theorem C17_parseval_nd (D N : ℕ) (hD : 1 ≤ D) (hN : 0 < N) (u : Array ℂ) (hu : ∀ j < N ^ D, (u.getD j 0).im = 0) :
+    (∑ b ∈ Finset.range (N / 2 + 1), (Spectrum.spectrum D N true false u).getD b 0 +
+        ∑ h ∈ Finset.range (Layout.numModes D N),
+          if Layout.roundNorm (Layout.wnFlat D N h) < N / 2 + 1 then 0
+          else Spectrum.quantity D N true (Transform.rfftnM D N u) h) =
+      ((1 / 2 * (1 / ((N ^ D : ℕ) : ℝ) * ∑ j ∈ Finset.range (N ^ D), ‖u.getD j 0‖ ^ 2) : ℝ) : ℂ) :=
+  ReadOff.spectrum_parseval_nd D N hD hN u hu
 
 end Exponax
